@@ -16,7 +16,7 @@ func init() {
 	extraLemmaFuncs = append(extraLemmaFuncs, "capnp.(List).readSize", "capnp.(Struct).readSize", "capnp.(*Message).depthLimit", "capnp.(*Message).initReadLimit")
 	Register(&Spec{
 		ID:           "C02",
-		Explanation:  "Decides structural necessary conditions of the traversal and depth bounds: (R1) readPtr is the only function that obtains objects from readStructPtr/readListPtr, and every struct or list it returns is dominated by the true edge of canRead(x.readSize()) for that same object; (R2) readSize charges a zero-sized element as one word and saturates on overflow, canRead updates the budget with a compare-and-swap retry loop and saturates at 0 (normal forms / structure); (R3) Message.rlimit is only touched through sync/atomic; (R4) every value stored into a depthLimit field is inherited unchanged, maxDepth in a builder, the message limit at the root, or X-1 under a dominating proof that X != 0 (and readPtr fails for struct/list when depthLimit == 0); (R6) every caller of readPtr passes the depthLimit of the object whose pointer slot it reads. (R5) every recursive group of the library's own consumers of message objects (Equal, writePtr/copyStruct, canonicalisation, text marshalling, pogs extract/insert) reaches Segment.readPtr, where the depth limit is tested and decremented. Does NOT decide the numeric accounting equation, the bound under real concurrent schedules beyond atomicity, or stack sizes; recursion of consumers is not analysed (stated in DESIGN).",
+		Explanation:  "Decides structural necessary conditions of the traversal and depth bounds: (R1) readPtr is the only function that obtains objects from readStructPtr/readListPtr, and every struct or list it returns is dominated by the true edge of canRead(x.readSize()) for that same object; (R2) readSize charges a zero-sized element as one word and saturates on overflow, canRead updates the budget with a compare-and-swap retry loop and saturates at 0 (normal forms / structure); (R3) Message.rlimit is only touched through sync/atomic; (R4) every value stored into a depthLimit field is inherited unchanged, maxDepth in a builder, the message limit at the root, or X-1 under a dominating proof that X != 0 (and readPtr fails for struct/list when depthLimit == 0); (R6) every caller of readPtr passes the depthLimit of the object whose pointer slot it reads. (R5) every recursive group of the library's own consumers of message objects (Equal, writePtr/copyStruct, canonicalisation, text marshalling, pogs extract/insert) reaches Segment.readPtr, where the depth limit is tested and decremented. (R7) Message.Reset re-arms the traversal budget on every path (shared with C14-R5). Does NOT decide the numeric accounting equation, the bound under real concurrent schedules beyond atomicity, or stack sizes; recursion of consumers is not analysed (stated in DESIGN).",
 		ExtraConfigs: true,
 		Run:          runC02,
 	})
@@ -32,6 +32,9 @@ func runC02(ctx *Ctx) {
 	ruleAtomicOnly(ctx, "C02-R3")
 	ruleDepthSites(ctx, "C02-R4")
 	ruleReadPtrCallers(ctx, "C02-R6")
+	// a reused Message starts its next message with the configured budget:
+	// Reset re-arms rlimit on every path (shared with C14-R5)
+	ruleResetComplete(ctx, "C02-R7", "capnp", "Message", "Reset", []string{"CapTable", "Arena"})
 	r := ctx.Rep
 	r.Floor("C02-R1", 4)
 	r.Floor("C02-R2c", 3)
